@@ -10,7 +10,7 @@ RULE = ("whole crawls (real pipeline) stopped at a chosen moment - idle, before 
         "within the HTTP timeout plus a margin without a panic, and afterwards every WARC file must carry its final name and consist of "
         "complete members (read back with compress/gzip). Non-trivial: a stop while requests were in flight or while paused; distinct by "
         "(configuration, moment)")
-MOMENTS = ["idle", "first", "held", "requests", "requests", "paused", "drain", "paused-hub", "retrying"]
+MOMENTS = ["idle", "first", "held", "requests", "requests", "paused", "drain", "paused-hub", "retrying", "lowdisk"]
 
 
 def site(r):
@@ -58,6 +58,9 @@ def gen(r, k, moment=None, cfg=None):
         scn["stop"] = {"when": "requests", "n": r.randrange(1, 9), "extraMs": r.choice([0, 5, 50]), "timeoutMs": 8000}
     elif m == "paused":
         scn["stop"] = {"when": "paused", "n": r.randrange(0, 4), "extraMs": 100, "timeoutMs": 8000}
+    elif m == "lowdisk":
+        # the pipeline is paused by the crawler's own disk watcher (its tick is 5 s), the volume stays full, the operator stops the job
+        scn["stop"] = {"when": "lowdisk", "n": r.randrange(0, 3), "extraMs": r.choice([50, 400]), "timeoutMs": 14000}
     else:
         scn["stop"] = {"when": "drain", "timeoutMs": 30000}
     scn["stop"]["stopTimeoutMs"] = 20000
@@ -68,7 +71,7 @@ def judge(ctx, scn, rep, err):
     rp = {"domain": "e2e", "scenario": scn}
     c = scn["cfg"]
     what = "stop %s under %s" % (scn["moment"], {k: v for k, v in c.items() if v not in (False, 0, None)})
-    ctx.case(json.dumps([c, scn["moment"], scn.get("useHQ")]), scn["moment"] in ("held", "requests", "paused", "paused-hub", "retrying"))
+    ctx.case(json.dumps([c, scn["moment"], scn.get("useHQ")]), scn["moment"] in ("held", "requests", "paused", "paused-hub", "retrying", "lowdisk"))
     ctx.count("moment:" + scn["moment"])
     for k in ("socksProxy", "warcAsync", "disableSeencheck"):
         if c.get(k):
